@@ -6,9 +6,10 @@ Text.from_markup and _emoji_replace, in-process.  `Style.normalize` is a paramet
 answers a NUL-marked string for any name the real code did not normalize (so a tokenizer
 disagreement can never hide behind the table).  The emoji table is data: the harness hands the
 model the `:name:` candidates of the input that rich/_emoji_codes.py knows.  The console glue
-(Console.render_str and Console.print of strings, highlighting off: which of markup / emoji is
-interpreted for every combination of console defaults and arguments) is compared the same way
-(driver entries mk_render_str, mk_print).
+(Console.render_str and Console.print of strings: which of markup / emoji is interpreted for every
+combination of console defaults and arguments; with a highlighter: whether it is applied, on which
+text, and that its spans come in front of the markup's) is compared the same way (driver entries
+mk_render_str, mk_print, mk_render_str_h, mk_print_h; mk_emoji for _emoji_replace itself).
 
 Direct evaluation (3d): an independent reference interpreter of the markup semantics
 (lib_markup.o_render: hand scanner, open-tag list, vocabulary-based normalize) is compared with
@@ -83,9 +84,35 @@ def build_vocab():
     return v
 
 
+URLS = ["http://x.org/", "https://e.com/a?b"]
+
+
+def build_link_vocab():
+    """tags that carry a link TOGETHER with attribute words (also negated), colours and `on colour`:
+    (canonical normalized name, opening spellings, closing spellings, parameters or None).
+    `[not bold link=URL]`: the name `not bold link` is not a style definition, so it normalizes to its
+    own stripped lower-case text and the span style is `not bold link URL`;
+    `[not bold link URL]`: a style definition, normalized to attribute order, colour, `on` colour, link."""
+    v = []
+    for i, (name, alias) in enumerate(ATTR13):
+        a = alias or name
+        u = URLS[i % 2]
+        for neg in ("not ", ""):
+            for extra, cextra in (("", ""), (" red", " red"), (" on blue", " on blue"), (" #00ff00 on yellow", " #00ff00 on yellow")):
+                for w in {name, a}:
+                    sp = neg + w + extra + " link"
+                    v.append((sp, [sp, sp + " "], [sp, sp.upper(), " " + sp], URLS))
+                canon = neg + name + cextra + " link " + u
+                sps = [neg + name + extra + " link " + u, "link " + u + " " + neg + a + extra]
+                v.append((canon, sps, sps, None))
+    return v
+
+
 VOCAB = build_vocab()
 # the attribute tags are drawn more often than their share of the vocabulary
 VOCAB_ATTR = [x for x in VOCAB if x[0].split()[-1] in {n for n, _ in ATTR13}]
+VOCAB_LINK = build_link_vocab()
+VOCAB_ALL = VOCAB + VOCAB_LINK
 PARAMS = [None, None, None, "1", "", "http://x.y/z", "a=b", "b c", "[q"]
 LEAF_ALPHA = L.ALPHA + ["x", "y", "é", "あ", "\r", "\x08", "A", "smile", "]", "[", "\\", "a", ":", " "]
 
@@ -111,6 +138,9 @@ def gen_doc(rng, malformed=False):
         # a style attribute, and often its negation or a pair containing it (a later tag must override)
         base = rng.choice(ATTR13)[0]
         VOCAB += rng.sample([x for x in VOCAB_ATTR if base in x[0].split()], 3)
+        if rng.random() < 0.5:
+            # ... and tags that set or clear it together with a link (Console.get_style copies those)
+            VOCAB += rng.sample([x for x in VOCAB_LINK if base in x[0].split()], 2)
     toks = []
     parts = []
     open_ = []  # canonical names, in opening order
@@ -120,7 +150,7 @@ def gen_doc(rng, malformed=False):
         if i == bad_at:
             if not open_ or rng.random() < 0.5:
                 # explicit close of something that is not open
-                cands = [v for v in globals()["VOCAB"] if v[0] not in open_]
+                cands = [v for v in globals()["VOCAB"] if v[0] not in open_]  # (link tags are never the failing close)
                 v = rng.choice(cands)
                 sp = rng.choice(v[2])
                 p = rng.choice([None, None, "z"])
@@ -146,6 +176,10 @@ def gen_doc(rng, malformed=False):
             v = rng.choice(VOCAB)
             sp = rng.choice(v[1])
             p = rng.choice(PARAMS)
+            if len(v) > 3 and v[3] is not None and rng.random() < 0.85:
+                p = rng.choice(v[3])
+            elif len(v) > 3 and v[3] is None:
+                p = None
             toks.append(("open", v[0], p, sp))
             parts.append("[" + sp + ("]" if p is None else "=" + p + "]"))
             open_.append(v[0])
@@ -153,7 +187,7 @@ def gen_doc(rng, malformed=False):
             # close by name: mostly the innermost (nesting), sometimes an outer one (overlap)
             q = len(open_) - 1 if rng.random() < 0.6 else rng.randrange(len(open_))
             canon = open_[q]
-            v = [x for x in globals()["VOCAB"] if x[0] == canon][0]
+            v = [x for x in VOCAB_ALL if x[0] == canon][0]
             sp = rng.choice(v[2])
             p = rng.choice([None, None, None, "ignored"])
             # the most recent tag of that name is the one that closes
@@ -222,6 +256,40 @@ def gen_far_error(rng):
     tag = rng.choice(["[/q]", "[/ q ]", "[/q=1]", "[/Q]"])
     post = rng.choice(["", "z", "[b]"])
     return pre + "\\" * k + tag + post
+
+
+def corner_docs():
+    """bounded-exhaustive corner class: every attribute x both polarities of the enclosing region x
+    an inner tag that sets the OPPOSITE polarity, alone or with a colour / `on` colour / both, and
+    with no link / `link=URL` (parameter form) / `link URL` (inside the name), the inner region
+    closed by `[/]` (nested) or the outer one closed first by name (overlapping).
+    -> (markup, tokens, style definition of the inner tag as written)"""
+    n = 0
+    for name, alias in ATTR13:
+        for outer_on in (True, False):
+            outer = name if outer_on else "not " + name
+            opp = ("not " if outer_on else "") + name
+            for extra in ("", " red", " on blue", " #00ff00 on yellow"):
+                for link in (0, 1, 2):
+                    n += 1
+                    w = (alias or name) if n % 2 else name
+                    u = URLS[n % 2]
+                    inner = ("not " if outer_on else "") + w + extra
+                    osp = outer if n % 3 else (("not " if not outer_on else "") + (alias or name))
+                    if link == 0:
+                        canon, sp, par = opp + extra, inner, None
+                    elif link == 1:
+                        canon, sp, par = inner + " link", inner + " link", u
+                    else:
+                        canon, sp, par = opp + extra + " link " + u, (inner + " link " + u if n % 4 < 2 else "link " + u + " " + inner), None
+                    tag = "[" + sp + ("]" if par is None else "=" + par + "]")
+                    written = sp if par is None else sp + " " + par
+                    nested = ("[%s]a%sb[/]c[/]d" % (osp, tag),
+                              [("open", outer, None, osp), ("text", "a"), ("open", canon, par, sp), ("text", "b"), ("closetop",), ("text", "c"), ("closetop",), ("text", "d")])
+                    overlap = ("[%s]a%sb[/%s]c" % (osp, tag, outer),
+                               [("open", outer, None, osp), ("text", "a"), ("open", canon, par, sp), ("text", "b"), ("close", outer), ("text", "c")])
+                    yield nested[0], nested[1], written
+                    yield overlap[0], overlap[1], written
 
 
 def expect_doc(toks):
@@ -399,9 +467,20 @@ def run(ctx):
     console = Console(width=80, color_system="truecolor", force_terminal=True, legacy_windows=False)
     null = Style.null()
     n_docs = 7000 if ctx.quick else 40000
-    for i in range(n_docs):
-        malformed = rng.random() < 0.2
-        mk, toks = gen_doc(rng, malformed)
+    corner = list(corner_docs())
+    ctx.note("doc:corner-link-negation", len(corner))
+    for i in range(n_docs + len(corner)):
+        base = None
+        if i < len(corner):
+            # bounded-exhaustive corner class first; every third one also with the inner tag's style as
+            # the BASE style of the Text (Text.from_markup(style=...)), observed through Text.render and get_style_at_offset
+            malformed = False
+            mk, toks, written = corner[i]
+            if i % 3 == 0:
+                base = written
+        else:
+            malformed = rng.random() < 0.2
+            mk, toks = gen_doc(rng, malformed)
         exp = expect_doc(toks)
         ans, tbl, res = L.real_render(mk, False)
         ctx.note("doc:" + ("malformed" if malformed else "wellformed") + ":tokens%d" % min(len(toks), 9))
@@ -458,6 +537,42 @@ def run(ctx):
                 ctx.check(len(real) == len(want_w) and bad_at is None, "doc:effective-style-as-written", mk,
                           "character %r is drawn with style %r; the tags open there, as written %r, combine to %r"
                           % ((bad_at, show_style(real[bad_at]), ann_w[bad_at], show_style(want_w[bad_at])) if bad_at is not None else (None, None, None, None)))
+            # the same, FIELD BY FIELD and without any Style object in the expectation: every tag overrides
+            # exactly the settings it speaks about (tri-state attributes, colour, background, link), composed
+            # by the harness from the tag texts as written; observed through Text.render and through
+            # Text.get_style_at_offset (both resolve span styles with Console.get_style, which copies a
+            # style that has a link), also under a base style of the Text
+            try:
+                tb = res if base is None else Text.from_markup(mk, style=base)
+                real_b = real if base is None else char_styles(tb, console)
+            except BaseException as exc:  # noqa: BLE001
+                ctx.check(False, "doc:effective-style-fields", (mk, base), f"Text.from_markup(style={base!r}) / Text.render raised {exc!r}")
+                continue
+            pre_w = () if base is None else (base,)
+            fmemo = {}
+            if not ctx.check(len(real_b) == len(ann_w), "doc:effective-style-fields", (mk, base) if base else mk, "Text.render yields %d characters, expected %d" % (len(real_b), len(ann_w))):
+                continue
+            for p in range(len(real_b)):
+                a = pre_w + ann_w[p]
+                first = a not in fmemo
+                if first:
+                    fmemo[a] = L.o_compose(a)
+                wantf, allstyle = fmemo[a]
+                if wantf is None:
+                    ctx.note("oracle:style-undecided")
+                    continue
+                gotf = show_style(real_b[p])
+                ctx.check(gotf == wantf, "doc:effective-style-fields", (mk, base) if base else mk,
+                          "character %d is drawn with %r; the tags open there, as written %r, compose to %r" % (p, gotf, a, wantf))
+                if allstyle and first:
+                    try:
+                        at = show_style(tb.get_style_at_offset(console, p))
+                    except BaseException as exc:  # noqa: BLE001
+                        at = "raised %r" % (exc,)
+                    ctx.check(at == wantf, "doc:get_style_at_offset", (mk, base) if base else mk,
+                              "get_style_at_offset(%d) = %r; the tags open there, as written %r, compose to %r" % (p, at, a, wantf))
+                    if any("link" in w.split() for w in a):
+                        ctx.note("doc:fields:link+" + ("negation" if any("not" in w.split() for w in a) else "positive"))
             # and Text.render itself means "covering spans in list order, later wins"
             fold = [Style.combine([console.get_style(st, default=null) for st in c]) if c else null for c in L.cover(got, len(plain))]
             ctx.check(len(real) == len(fold) and all(r == w for r, w in zip(real, fold)), "Text.render-vs-span-fold", mk, "Text.render disagrees with the fold of the covering spans in list order")
@@ -507,6 +622,63 @@ def run(ctx):
     merge_out(ctx, out)
     ctx.flush()
 
+    # ---- 5b. the same glue with a highlighter: Console(highlight=), render_str(highlight=, highlighter=), print(highlight=)
+    hcombos = [(ce, cm, ch, e, m, h, ua) for ce in (True, False) for cm in (True, False) for ch in (True, False)
+               for e in (None, True, False) for m in (None, True, False) for h in (None, True, False) for ua in (False, True)]
+    out = L.Out()
+    focus = ["1", "[b]1[/b]1", "a[b]1 2[/b]:a:", "[red]None[/red]x", "[b]'s'[/]", "\\[b]1", "1[/]", "[i]a[b]True[/i]aa[/b]", ":1:[u]:[/u]1:", "[b]\r1[/b]"]
+    for s in focus:
+        for c in hcombos:
+            L.check_glue_h(out, [s], " ", *c)
+    for s in L.shard_strings("", 2):
+        for c in rng.sample(hcombos, 8):
+            L.check_glue_h(out, [s], " ", *c)
+    n_hl = 1200 if ctx.quick else 8000
+    for i in range(n_hl):
+        strs = []
+        for _ in range(rng.choice([1, 1, 2, 3])):
+            r = rng.random()
+            if r < 0.5:
+                strs.append(gen_doc(rng, rng.random() < 0.1)[0])
+            elif r < 0.8:
+                strs.append("".join(rng.choice(extra + ["1", "2", "'", "True", "="]) for _ in range(rng.randint(0, 10))))
+            else:
+                strs.append(markup.escape(gen_leaf(rng)))
+        c = rng.choice(hcombos)
+        if rng.random() < 0.5:
+            c = (c[0], True, True) + c[3:]  # markup and highlighting on by default: the case where both style a character
+        L.check_glue_h(out, strs, rng.choice(seps), *c)
+    merge_out(ctx, out)
+    ctx.flush()
+
+    # ---- 5c. _emoji_replace itself (driver entry mk_emoji): every string <= 4 over 10 symbols that spell short
+    # codes of the real table (:a: :b: :o: :ok: :ab: :100: :1234: :-1: ...), white space inside a code, upper case
+    from rich._emoji_replace import _emoji_replace
+    import itertools as _it
+
+    EA = [":", "a", "b", "o", "k", "1", "-", "A", " ", "\n"]
+    nem = 0
+    for n in range(0, 5):
+        for t in _it.product(EA, repeat=n):
+            s = "".join(t)
+            if n == 4 and s.count(":") < 2:
+                continue
+            try:
+                got = _emoji_replace(s)
+            except BaseException as exc:  # noqa: BLE001
+                ctx.check(False, "emoji_replace:exception", s, f"_emoji_replace raised {exc!r}")
+                continue
+            nem += 1
+            ctx.case("mk_emoji", [enc_str(s), L.enc_table(L.emoji_table(s))], enc_str(got), shape="changed" if got != s else "same")
+            ctx.check(got == L.o_emoji(s), "emoji_replace:leftmost-lazy-no-space", s, f"_emoji_replace -> {got!r}, expected {L.o_emoji(s)!r}")
+    ctx.note("emoji_replace:strings", nem)
+    for _ in range(1500 if ctx.quick else 10000):
+        s = "".join(rng.choice(EA + [":", ":", "smile", "+", "0", "é", "\t", "x", "thumbs_up", "_"]) for _ in range(rng.randint(5, 14)))
+        got = _emoji_replace(s)
+        ctx.case("mk_emoji", [enc_str(s), L.enc_table(L.emoji_table(s))], enc_str(got), shape="changed" if got != s else "same")
+        ctx.check(got == L.o_emoji(s), "emoji_replace:leftmost-lazy-no-space", s, f"_emoji_replace -> {got!r}, expected {L.o_emoji(s)!r}")
+    ctx.flush()
+
     # ---- 6. structured strings: arbitrary tag bodies up to 12 characters, backslash runs, far error positions
     out = L.Out()
     n_body = 4000 if ctx.quick else 30000
@@ -529,8 +701,13 @@ def run(ctx):
         "+ %d seeded tag-grammar documents (nested/overlapping/implicit closes, ~130 tag names x spellings x parameters: every attribute of Style and its alias alone, negated and in pairs, colours, links, non-styles, escaped leaves, 20%% malformed) "
         "+ structured strings (2-7 bracketed bodies of length <= 12 over the tag class, its neighbours, line feed, brackets, backslash, '=', blanks; "
         "0-7 backslashes in front; failing closes behind 2-9 backslashes) + Console.render_str / Console.print on all strings <= 3 over the 12 symbols (all 36 flag combinations up to length 2, 6 seeded ones of the 36 at length 3) and seeded lists of 1-3 strings; "
+        "+ link-bearing tags (280 names: every attribute, plain and negated, alone / with colour / `on` colour / both, with `link=URL` as parameter or `link URL` inside the name) drawn into the documents together with tags that set the opposite, "
+        "and the bounded-exhaustive corner class of 624 documents (13 attributes x polarity of the enclosing region x 4 colour forms x 3 link forms x nested/overlapping; every third also under a base style of the Text), "
+        "the effective style compared field by field (tri-state attributes, colour, background, link) through Text.render and Text.get_style_at_offset; "
+        "+ the glue with a highlighter: 10 focus strings x all 432 combinations of Console(emoji, markup, highlight) x render_str/print arguments (emoji, markup, highlight: None/True/False) x highlighter argument given or not, "
+        "every string <= 2 over the 12 symbols x 8 seeded combinations, %d seeded lists of 1-3 strings; + _emoji_replace on every string <= 3 (and every string of length 4 with two colons) over 10 symbols spelling short codes of the real table, 1500 seeded longer ones; "
         "distinct = distinct canonical request lines (exhaustive shards enumerate distinct strings by construction)"
-        % (maxlen, L.ALPHA, maxlen2, L.ALPHA2, nstr, full_upto, n_rand, n_docs)
+        % (maxlen, L.ALPHA, maxlen2, L.ALPHA2, nstr, full_upto, n_rand, n_docs, n_hl)
     )
 
 
@@ -564,18 +741,27 @@ MANIFEST = {
     "result for every string and table, render_escape_emoji_witness shows `:a:` is not protected by escape(). Glue: render_str with "
     "markup disabled never interprets the text (render_str_markup_off), with markup enabled it is markup.render with the emoji flag "
     "resolved `arg or (arg is None and default)` (render_str_markup_on, triFlag_spec), print_escape through Console.print. "
+    "Highlighter glue (Model/MarkupHL.lean; a highlighter is an arbitrary span source): render_str_highlight (render_str with highlighting = same failure, "
+    "same plain text, the highlighter's spans on the final plain text IN FRONT of the markup's spans), markup_wins_over_highlight (every markup string, any "
+    "highlighter, any emoji setting: at every character the covering spans are the highlighter's styles first, then exactly the tags open there in opening "
+    "order - a tag always overrides the highlighter), render_str_highlight_off, print_highlight_decision / print_highlight_on (Console.print highlights its "
+    "strings exactly when the console default is on and the argument is not False: the argument True is not passed on to render_str - the code as it is, "
+    "outside the statement of C04). "
     "old_tags_style_exactly* keep the `decide` witnesses that rich 9.10.0's `sorted(spans)` broke the precedence (F8, fixed by 623ba68). "
     "Tie: ~1.5M model-vs-rich comparisons per quick run (every string <= 5 over the 12-symbol alphabet and <= 4 over 16 class-boundary "
     "symbols through escape, _parse, render, Text.from_markup with emoji on; random strings; 7000 tag-grammar documents; 5000 structured "
     "strings with arbitrary tag bodies up to 12 characters, backslash runs up to 7 and failing closes behind up to 9 backslashes; "
-    "Console.render_str / Console.print over all 36 flag combinations), and the theorems' executable statements evaluated on rich's own "
+    "Console.render_str / Console.print over all 36 flag combinations; the same with a recorded ReprHighlighter on the console and a second, regex highlighter as argument over all 432 combinations of "
+    "console defaults and arguments, ~13.5k requests; _emoji_replace itself on ~3.1k strings), and the theorems' executable statements evaluated on rich's own "
     "output against an independent reference interpreter, on real Text.render for the documents, and on the characters Console.print writes.",
     "note": "Trusted: Lean kernel; axioms propext/Classical.choice/Quot.sound; the correspondence harness; regex leftmost/greedy/lazy "
     "semantics for three patterns is modelled by hand scanners and tied only by the (exhaustive-to-length-5/7) correspondence. "
     "Parameters, not verified: Style.normalize (recorded from the real call and replayed by the model; its contract is checked by the "
-    "oracle on a ~130-name vocabulary covering all 13 Style attributes and aliases alone, negated and in pairs; the style each character is drawn with is judged against Style objects built from the tag texts as written by the harness's own word parser, not through Style.parse/normalize/__str__), the EMOJI table (data handed to the model per request), str.isspace (compared on code points). "
-    "Console glue is modelled with highlighting off, no console-level style and justify=None; style/justify/overflow pass-through is "
-    "checked directly, not modelled. Code variant flag: SORT_SPANS = 0 (the repaired span order of fix 623ba68, what /repo contains; "
+    "oracle on a ~130-name vocabulary covering all 13 Style attributes and aliases alone, negated and in pairs; the style each character is drawn with is judged against Style objects built from the tag texts as written by the harness's own word parser, not through Style.parse/normalize/__str__; since round 4 also FIELD BY FIELD against plain dicts composed by the harness (no Style object in the expectation, so Style.copy / __add__ / combine cannot hide a lost setting), "
+    "through Text.render and Text.get_style_at_offset, on documents whose tags combine attribute words incl. `not X`, colours, `on colour` and both link forms, nested in regions that set the opposite (624 bounded-exhaustive corner documents + random), also under a Text base style), "
+    "the highlighter (an arbitrary function in the theorems; in the tie the spans the real highlighter produced for each plain text are recorded and replayed, an unseen text answers a NUL-styled span), the EMOJI table (data handed to the model per request), str.isspace (compared on code points). "
+    "Console glue is modelled with and without a highlighter, with no console-level style (Console(style=) wraps the Text in Styled, outside this model) and justify=None; style/justify/overflow pass-through is "
+    "checked directly, not modelled (with a highlighter render_str returns a fresh Text and DROPS style/justify/overflow - code as it is, not asserted). The emoji table is still data per request, not a generated Lean table. Code variant flag: SORT_SPANS = 0 (the repaired span order of fix 623ba68, what /repo contains; "
     "1 = rich 9.10.0 as found, `text.spans = sorted(spans)`, env VERIF_C04_SORT_SPANS). No known finding is open for this property: "
     "with SORT_SPANS = 0 no failure is ever classified as a known finding and no KNOWN-FINDING line is printed (only with "
     "SORT_SPANS = 1 are span-order failures classified as `markup-same-start-precedence`, F8).",
